@@ -180,13 +180,18 @@ class RunDirector(Director):
     def take_fault(self, kinds, key=None, res=None):
         """Used by the resource / network / callback stubs: consume a planned fault for this op."""
         for f in self.faults:
-            if f["_fired"] or f["op"] != self.op or f["kind"] not in kinds:
+            if (f["_fired"] and not f.get("persist")) or f["op"] != self.op or f["kind"] not in kinds:
                 continue
             if f.get("key") is not None and key is not None and f["key"] != key:
                 continue
             if f.get("key") is not None and key is None:
                 if res is None or self.w.keys[f["key"]]["res"] != res:
                     continue
+            if f["_fired"]:
+                # a persistent fault (the remote stays down for the whole operation): fires again, for an
+                # implementation that retries, without being counted twice
+                self.w.stats["probes"]["persistent_fault_refired"] = self.w.stats["probes"].get("persistent_fault_refired", 0) + 1
+                return f
             f["_fired"] = True
             # _key None = the stub could not tell which key this call served (unknown file naming): the oracle
             # then treats every requested key of that resource as possibly failed
